@@ -467,7 +467,7 @@ pub fn print_case(run: usize, p: &Problem, dir: &str) -> Value {
         }
         // chordal decomposition facts from the read-only view (None: not decomposed)
         let chordal_int: Value = match clarabel::verif::chordal_view(d) {
-            None => Value::Null,
+            None => json!({}),
             Some(v) => {
                 let st = p.settings();
                 let onoff = |b: bool| if b { "on" } else { "false" };
@@ -494,7 +494,7 @@ pub fn print_case(run: usize, p: &Problem, dir: &str) -> Value {
             "parsed": rec_ipm::parse_print(&b1), "config": parse_config(&b1),
             "internal": {"n": d.n, "m": d.m, "nnzP": d.P.nnz(), "nnzA": d.A.nnz(), "ncones": d.cones.len(),
                          "removed": removed, "has_presolver": removed > 0, "cones": ccount, "dims": cdims,
-                         "chordal": chordal_int, "chordal_active": !chordal_int.is_null(),
+                         "chordal": chordal_int, "chordal_active": chordal_int.as_object().map(|o| !o.is_empty()).unwrap_or(false),
                          "linalg": {"kind": if s1.info.linsolver.direct { "direct" } else { "indirect" }, "name": s1.info.linsolver.name,
                                     "precision": "64", "threads": s1.info.linsolver.threads},
                          "max_iter": p.settings().max_iter, "settings": expected_settings(&p.settings())},
